@@ -1,7 +1,7 @@
 // crate: kolibrie
 // BOUNDED stand-in for the union clause of C15: the union of two independently built databases denotes exactly the
 // union of their datasets (quads compared lexically incl. quoted-triple terms, graph identities, probability seeds),
-// for every pair of databases built from <= 2 of 7 fixed statements in either insertion order (identifiers clash;
+// for every pair of databases built from <= 2 of 9 fixed statements in either insertion order (identifiers clash;
 // statements 3, 5 and 6 intern the same vocabulary in the same order and then quote DIFFERENT triples, so the two
 // sides use the same quoted-triple identifier for different terms).
 use kolibrie::sparql_database::SparqlDatabase;
@@ -39,6 +39,8 @@ fn build(stmts: &[usize]) -> SparqlDatabase {
                 };
                 db.dataset_index.insert_quad(&Quad { subject: qt, predicate: says, object: who, graph: GraphId::Default });
             }
+            7 => { db.add_tagged_triple("http://e/a", "http://e/p", "http://e/b", 0.5); }    // probability seeds on plain triples: built alone,
+            8 => { db.add_tagged_triple("http://e/x", "http://e/y", "http://e/z", 0.75); }   // 7 and 8 get the SAME raw identifiers (0,1,2)
             _ => unreachable!(),
         }
     }
@@ -57,7 +59,7 @@ fn seeds(db: &SparqlDatabase) -> BTreeMap<(String, String, String), String> {
 
 #[test] fn w__union__denotes_the_union_of_the_datasets() {
     let mut configs: Vec<Vec<usize>> = vec![vec![]];
-    for a in 0..7 { configs.push(vec![a]); for b in 0..7 { if a != b { configs.push(vec![a, b]); } } }
+    for a in 0..9 { configs.push(vec![a]); for b in 0..9 { if a != b { configs.push(vec![a, b]); } } }
     for x in &configs { for y in &configs {
         let mut a = build(x);
         let b = build(y);
